@@ -147,7 +147,15 @@ func (s *Sim) checkArrival(n *RecvNode, a *arrival) {
 			}
 		}
 		if cnt > 1 && !s.touchedVersion(ann[a.MD5], a.MD5) {
-			s.violate(s.sc.Prop, "delivered-twice", "file %s md5 %s arrived %d times", a.Path, short(a.MD5), cnt)
+			if s.deliveryKnownOnlyFromLog(ann[a.MD5]) {
+				// its own oracle id: the receiver had dropped the delivery from its
+				// in-memory cache and was sent the file again without being asked
+				// about it first (any question makes it read the log again)
+				s.ob.logDupAllowed[src+"/"+ann[a.MD5]]++
+				s.violate(s.sc.Prop, "redelivered-when-known-only-from-log", "file %s md5 %s arrived %d times; the receiver's in-memory record of the delivery had aged out and the file was sent again without a preceding question", a.Path, short(a.MD5), cnt)
+			} else {
+				s.violate(s.sc.Prop, "delivered-twice", "file %s md5 %s arrived %d times", a.Path, short(a.MD5), cnt)
+			}
 		}
 	}
 }
